@@ -58,8 +58,13 @@ def one(sid):
     meta["caught_by"] = sorted({x["check"] for x in caught if not x["rules"][0].startswith("CHECKER-ERROR")})
     meta["caught_detail"] = caught
     meta["silent"] = silent
+    if meta.get("benign"):
+        meta["false_alarms"] = caught
     json.dump(meta, open(mp, "w"), indent=1)
-    print(sid, "caught by", [(x["check"], x["rules"]) for x in caught], "silent:", silent, flush=True)
+    if meta.get("benign"):
+        print(sid, "BENIGN:", "all silent" if not caught else f"FALSE ALARM {[(x['check'], x['rules']) for x in caught]}", "silent:", silent, flush=True)
+    else:
+        print(sid, "caught by", [(x["check"], x["rules"]) for x in caught], "silent:", silent, flush=True)
 
 
 try:
